@@ -92,25 +92,22 @@ func NewWriterLevel(w io.Writer, level, wc int) (*Writer, error) {
 
 func writeOK(bg *Writer, c *compressor) bool {
 	defer func() { bg.waiting <- c }()
+	defer bg.qwg.Done()
 
 	if c.err != nil {
-		bg.qwg.Done()
 		bg.setErr(c.err)
 		return false
 	}
 	if bg.Error() != nil {
 		// An earlier block was lost; do not write past the hole.
 		c.buf.Reset()
-		bg.qwg.Done()
 		return false
 	}
 	if c.buf.Len() == 0 {
-		bg.qwg.Done()
 		return true
 	}
 
 	_, err := io.Copy(bg.w, &c.buf)
-	bg.qwg.Done()
 	if err != nil {
 		bg.setErr(err)
 		return false
